@@ -94,7 +94,7 @@ impl Proposal {
             Threshold::AbsoluteCount {
                 weight: weight_needed,
             } => {
-                let weight = self.total_weight - weight_needed;
+                let weight = self.total_weight.saturating_sub(weight_needed);
                 self.votes.no > weight
             }
             Threshold::AbsolutePercentage {
